@@ -301,17 +301,21 @@ def read_wrapper(spec):
     return s
 
 
+def require_params_in_type(k, spec, params):
+    """Parameter values lie in their declared Emboss type (DESIGN section 4: not range-checked by the view)."""
+    for (pname, ptype), pv in zip(spec.params, params):
+        bits = {"uint8_t": 8, "uint16_t": 16, "uint32_t": 32}.get(ptype.replace("::std::", "").replace("std::", ""))
+        if bits:
+            k.requires(z3.ULE(pv, bv((1 << bits) - 1, 64)))
+
+
 def contract_read(k, spec_ref):
     import importlib
     mod, name = spec_ref.split(":")
     spec = getattr(importlib.import_module(mod), name)
     k.region("p", nonnull=False)
     params = [k.a0, k.a1]
-    # parameter values lie in their declared Emboss type (DESIGN section 4: not range-checked by the view)
-    for (pname, ptype), pv in zip(spec.params, params):
-        bits = {"uint8_t": 8, "uint16_t": 16, "uint32_t": 32}.get(ptype.replace("::std::", "").replace("std::", ""))
-        if bits:
-            k.requires(z3.ULE(pv, bv((1 << bits) - 1, 64)))
+    require_params_in_type(k, spec, params)
     ref = eval_struct(spec, k.P0, k.n, k.p != 0, params)
     k.ensures("Ok", k.obs_flag(0, ref["ok"]))
     k.ensures("IsComplete", k.obs_flag(1, ref["complete"]))
@@ -420,6 +424,7 @@ def contract_vwrite(k, spec_ref, vname):
     target_name = vf.writable[-1]
     tf = [f for f in spec.fields if f.name == target_name][0]
     inv = vf.writable[1] if kind == "transform" else (lambda v: v)
+    require_params_in_type(k, spec, [k.a0, k.a1])
     ref0 = eval_struct(spec, k.P0, k.n, k.p != 0, [k.a0, k.a1])
     ref1 = eval_struct(spec, k.P1, k.n, k.p != 0, [k.a0, k.a1])
     cand = M(True, k.outv(4))
@@ -509,6 +514,7 @@ def contract_equals(k, spec_ref):
     spec = _spec(spec_ref)
     k.region("p", nonnull=False)
     k.region("q", nonnull=False)
+    require_params_in_type(k, spec, [k.a0, k.a1])
     ra = eval_struct(spec, k.P0, k.n, k.p != 0, [k.a0, k.a1])
     rb = eval_struct(spec, k.Q0, k.m, k.q != 0, [k.a0, k.a1])
     both = z3.And(ra["ok"], rb["ok"])
@@ -526,6 +532,7 @@ def contract_copy(k, spec_ref):
     spec = _spec(spec_ref)
     k.region("p", nonnull=False)
     k.region("q", nonnull=False)
+    require_params_in_type(k, spec, [k.a0, k.a1])
     rb = eval_struct(spec, k.Q0, k.m, k.q != 0, [k.a0, k.a1])
     succ = z3.And(rb["ok"], k.p != 0, z3.UGE(k.n, rb["size"]))
     k.ensures("TryToCopyFrom", (k.ret == 1) == succ)
@@ -543,6 +550,7 @@ def contract_copy_overlap(k, spec_ref):
     spec = _spec(spec_ref)
     k.region("p", nonnull=True)       # the harness forms p + a0: a null base is excluded in the wrapper
     k.requires(z3.ULE(k.a0, k.n))
+    require_params_in_type(k, spec, [k.a1, k.a1])
     rb = eval_struct(spec, k.P0, k.n - k.a0, k.p != 0, [k.a1, k.a1], base_off=k.a0)
     succ = z3.And(rb["ok"], k.p != 0, z3.UGE(k.n, rb["size"]))
     k.ensures("TryToCopyFrom", (k.ret == 1) == succ)
